@@ -66,7 +66,7 @@ func (obj *ScalarIid) LogPdf(r Scalar, x ConstVector) error {
     return fmt.Errorf("LogPdf(): dimensions do not match (input has dimension `%d' whereas this distribution is of dimension `%d'", x.Dim(), obj.Dim())
   }
   r.Reset()
-  for i := 0; i < n; i++ {
+  for i := 0; i < x.Dim(); i++ {
     if err := obj.Distribution.LogPdf(t, x.ConstAt(i)); err != nil {
       return err
     }
